@@ -301,8 +301,18 @@ pub fn run_world(world: &World, plan: &[Rule]) -> RunOut {
 
 /// With `strace_out`, the binary runs under `strace -f -o <file>` as an independent witness of its system calls.
 pub fn run_world_opt(world: &World, plan: &[Rule], strace_out: Option<&Path>) -> RunOut {
+    run_world_inner(world, plan, strace_out, true)
+}
+
+/// Runs the world's command once more in the tree the previous run of this worker left behind (a re-run of the same
+/// command over its own outputs).
+pub fn run_world_again(world: &World) -> RunOut {
+    run_world_inner(world, &[], None, false)
+}
+
+fn run_world_inner(world: &World, plan: &[Rule], strace_out: Option<&Path>, fresh_tree: bool) -> RunOut {
     let base = scratch_base();
-    let root = materialise(world);
+    let root = if fresh_tree { materialise(world) } else { base.join("r") };
     let plan_path = base.join("plan");
     let log_path = base.join("log");
     let out_path = base.join("out");
